@@ -8,7 +8,7 @@ Fill holes and fix winding and normals of meshes.
 import numpy as np
 
 from . import graph, triangles
-from .constants import log
+from .constants import log, tol
 from .geometry import faces_to_edges
 from .grouping import group_rows
 
@@ -236,7 +236,12 @@ def fill_holes(mesh):
             # the two triangles are joined along the diagonal `hole[0]-hole[2]`
             # if that is already an edge of the mesh use the other diagonal
             # as otherwise the edge would be shared by four faces
-            if (mesh.edges_sorted == np.sort(hole[[0, 2]])).all(axis=1).any():
+            # the same goes for a diagonal which would produce a zero- area
+            # triangle, i.e. if three corners of the hole are collinear
+            if (mesh.edges_sorted == np.sort(hole[[0, 2]])).all(axis=1).any() or (
+                triangles.area(mesh.vertices[[hole[[0, 1, 2]], hole[[2, 3, 0]]]]).min()
+                < tol.merge
+            ):
                 hole = np.roll(hole, 1)
             face_A = hole[[0, 1, 2]]
             face_B = hole[[2, 3, 0]]
